@@ -340,6 +340,11 @@ func (p *provider) createAllSingletonsWithContext(ctx context.Context) error {
 		}
 	}
 
+	// Constructors that have already run. A constructor with several outputs
+	// runs once for all of them, also when it left one of them nil (a nil
+	// output is not stored, so the table alone cannot tell).
+	invoked := make(map[*Descriptor]struct{})
+
 	// Create instances in dependency order
 	for _, node := range sorted {
 		// Check context before each singleton creation
@@ -385,6 +390,15 @@ func (p *provider) createAllSingletonsWithContext(ctx context.Context) error {
 		if _, exists := p.getSingleton(key); exists {
 			continue
 		}
+
+		owner := descriptor
+		if len(descriptor.family) > 0 {
+			owner = descriptor.family[0]
+		}
+		if _, done := invoked[owner]; done {
+			continue
+		}
+		invoked[owner] = struct{}{}
 
 		_, err := p.rootScope.createInstance(descriptor)
 		if err != nil {
